@@ -246,6 +246,9 @@ func shrink(src string) string {
 	return cur
 }
 
+// siTagLine: a line printed by the helper si of the construct switch-tag-case-list-call (tags are g.fresh("t"): t<number>)
+var siTagLine = regexp.MustCompile(`(?m)^t\d+\n`)
+
 var emptyBlockRe = regexp.MustCompile(`\{\n\t*\}|:\n\t*(case |default:|\})`)
 
 var typesImporter = importer.ForCompiler(token.NewFileSet(), "source", nil)
@@ -410,7 +413,9 @@ func main() {
 					in = progCase{Src: shrink(c.Src)}
 				}
 				d := common.Disagreement{Kind: "impl-vs-ref", Input: in, Impl: ys[i].String(), Ref: gs[i].String()}
-				if c.Feat["switch-tag-case-list-call"] > 0 {
+				if c.Feat["switch-tag-case-list-call"] > 0 && ys[i].End == gs[i].End &&
+					siTagLine.ReplaceAllString(ys[i].Stdout, "") == siTagLine.ReplaceAllString(gs[i].Stdout, "") {
+					// (kept to divergences that consist of extra `si` tag lines only: anything else in such a program is reported)
 					// divergence class of F54 (decidable on the input): a tagged switch clause lists several expressions with calls
 					d.Finding = "tagged-switch-case-list-call"
 				}
